@@ -394,6 +394,25 @@ def replay(v):
                                     return {"reproduced": True, "key": "grid_slice_interp: slice is not the linear blend of the neighbouring sub-grids",
                                             "detail": f"{np.dtype(dtype).name} grid of shape {shape}, axis {sel!r}, coordinate {frac:.2f} of the way from node {k} to node {k+1}: "
                                                       + (f"cell {j}: {got[j]!r} returned, blend is {want[j]!r}" if j is not None else f"shape {got.shape} vs {want.shape}")}
+        # float64 grids, coordinates next to (but not on) a node, and axes whose values are large compared with their
+        # spacing: the blend is exact to rounding, any snapping to a node shows
+        for shape in ((3, 2), (2, 3, 2)):
+            data = rng.uniform(-300, 300, shape)
+            for axes in ([np.sort(rng.uniform(0, 10, n)) for n in shape], [5.0e4 + 0.25 * np.arange(n) for n in shape], [6.0 + 0.5 * np.arange(n) for n in shape]):
+                g = NssGrid(data, axes, [f"ax{i}" for i in range(len(shape))])
+                for ax in range(len(shape)):
+                    for k in range(shape[ax] - 1):
+                        h = axes[ax][k + 1] - axes[ax][k]
+                        for frac in (4e-6, 0.37, 1 - 4e-6):
+                            val = axes[ax][k] + frac * h
+                            out = grid_slice_interp(g, val, ax)
+                            d0, d1 = np.take(data, k, axis=ax), np.take(data, k + 1, axis=ax)
+                            want = d0 + (val - axes[ax][k]) * (d1 - d0) / h
+                            got = np.asarray(out.data, dtype=float)
+                            if got.shape != want.shape or not np.allclose(got, want, rtol=1e-9, atol=1e-9 * np.abs(d1 - d0).max()):
+                                return {"reproduced": True, "key": "grid_slice_interp: slice is not the linear blend of the neighbouring sub-grids",
+                                        "detail": f"float64 grid of shape {shape}, axis {ax} with nodes {axes[ax].tolist()}, coordinate {val!r} ({frac} of the way from node {k} to node {k+1}): "
+                                                  f"returned {got.ravel()[:3].tolist()}..., blend is {want.ravel()[:3].tolist()}..."}
         return {"reproduced": False, "key": None, "detail": "real grids (float64, int64, float32, int16; 2-D and 3-D): slices equal the blend"}
     m = v.get("model") or {}
     if job.startswith("vec_1d_interp"):
